@@ -76,6 +76,16 @@ func init() {
 				in.goPanic("nil certificate store dereferenced by goxmldsig")
 			}
 		}
+		if sig != "none" {
+			// goxmldsig reads ctx.Clock once (verifyCertificate) after it has found the signature
+			if cp, _ := call.Clock.(*Ptr); cp != nil {
+				if cn, _ := cp.Obj.Ghost["clock"].(string); cn != "" {
+					in.clockNow(cn)
+				}
+			} else {
+				in.wallNow("dsig with nil Clock")
+			}
+		}
 		switch sig {
 		case "none":
 			g := in.P.Pkgs[dsigPkg].Var("ErrMissingSignature")
